@@ -67,6 +67,39 @@ CHECKS.update({
         "technique": "CFG idiom proof with reaching definitions and canonical forms + named-axis abstract interpretation",
     },
 })
+CHECKS.update({
+    "C12": {
+        "text": "All clauses are purity / typestate facts decided on every class and function: constructor contract, hyper-parameter "
+                "writes only under save/restore with post-dominating restore, execution-ordered abstract run of fit and path proving every "
+                "learned attribute is stored before it is read, no history tests, no module/class state, RNG discipline by reaching "
+                "definitions and call-site propagation, interprocedural alias/mutation analysis of every public array parameter.",
+        "note": "trusted: scikit-learn's get_params/set_params/clone contract; the view/copy table of numpy operations in c12.py.",
+        "technique": "typestate + dominator/post-dominator rules + interprocedural alias taint + reaching definitions",
+    },
+    "C13": {
+        "text": "Permutation equivariance by construction (usage classes of every operation along the sample and cluster axes in the "
+                "named-axis interpretation of all 12 objectives) and finiteness-by-clipping (raw predictions only reach the mask/clip, "
+                "floored square roots, masked zero distances, empty-cluster zero gradient). Non-negativity, zero at independence, log K "
+                "and the unit bounds are NOT decided.",
+        "note": "trusted: numpy semantics table; epsilon validated in (0,1).",
+        "technique": "named-axis abstract interpretation with usage classes + sanitiser/taint rules on slices",
+    },
+    "C17": {
+        "text": "Structural hazards for finiteness: axis-less squeeze on symbolic axes, softmax outputs reaching a denominator or log without "
+                "clipping (taint through attributes and lists), clip/floor/mask rules of the GEMINIs, and a classified table of every "
+                "division site (unclassified = advisory). General finiteness (overflow, cancellation) is NOT decided.",
+        "note": "trusted: numpy semantics table; softmax outputs may underflow to 0, clipped values may not.",
+        "technique": "named-axis abstract interpretation with taint tags + division-site classification",
+    },
+    "C18": {
+        "text": "Sound sufficient condition for row-wise independence: along the axis of the predicted array every operation of the "
+                "prediction path of each inductive estimator is a map (any reduction, sort, positional or pairing operation, or an "
+                "operation outside the transfer table, fails the check); KernelRIM's kernel is taken against the stored training data "
+                "through one function; labels_ and predict are the same arg-max.",
+        "note": "trusted: numpy/sklearn semantics table (softmax row-wise, pairwise_kernels row by row).",
+        "technique": "named-axis abstract interpretation with usage classes",
+    },
+})
 NOT_APPLICABLE = {
     "C05": "exact-minimiser property over all real matrices: value-level, no structural clause that is both necessary and "
            "non-brittle beyond what C06 checks (DESIGN.md §7)",
